@@ -43,7 +43,8 @@ Inductive tpl_val :=
 | TpvStr (s : string)
 | TpvNum (z : Z)           (* json.Number that is an integer literal *)
 | TpvNumTxt (s : string)   (* json.Number that is not an integer literal, e.g. 1.5 or 1e3 *)
-| TpvFloat (z : Z)         (* float64 with an integral value *)
+| TpvFloat (z : Z)         (* float64 with an integral value z (domain: z is exactly representable as a float64;
+                              the harness records the value the float64 decoding yields, e.g. 2^63 for 2^63-1) *)
 | TpvFloatFrac             (* float64 with a fractional part *)
 | TpvOther.                (* array or object *)
 
@@ -225,13 +226,9 @@ Definition tpl_make_env (decls : list (string * tpl_decl)) (call : tpl_env) : tp
 
 (* ------------------------------------------------------------------ jsonToString *)
 Definition tpl_z_to_string (z : Z) : string := NilZero.string_of_int (Z.to_int z).
-Definition tpl_two63 : Z := 9223372036854775808.
-(* int64(v) of a float64 outside the int64 range: implementation-specific in Go; amd64 gives -2^63 *)
-Definition tpl_int64_of_float (z : Z) : Z :=
-  if (- tpl_two63 <=? z) && (z <? tpl_two63) then z else - tpl_two63.
 Definition tpl_json_to_string (v : tpl_val) : tpl_err + string :=
   match v with
-  | TpvFloat z => inr (tpl_z_to_string (tpl_int64_of_float z))
+  | TpvFloat z => inr (tpl_z_to_string z)      (* exact, through big.Float -> big.Int (fixes/filter-07) *)
   | TpvFloatFrac => inl TpeBadNumber
   | TpvNum z => inr (tpl_z_to_string z)
   | TpvNumTxt s => inr s
